@@ -14,10 +14,12 @@ package main
 // spec/ZRouteTrace.tla decides; Part is instantiated from the logged SDK values.
 
 import (
+	"bufio"
 	"flag"
 	"fmt"
 	"io/ioutil"
 	"math/rand"
+	"net"
 	"os"
 	"path/filepath"
 	"strconv"
@@ -26,6 +28,7 @@ import (
 
 	"github.com/absolute8511/redcon"
 	"github.com/siddontang/goredis"
+	"github.com/youzan/ZanRedisDB/common"
 	"github.com/youzan/ZanRedisDB/node"
 	"github.com/youzan/ZanRedisDB/server"
 	sdk "github.com/youzan/go-zanredisdb"
@@ -136,17 +139,19 @@ func rtMap(tw *trace.Writer, seed int64, nkeys int, ps []int) map[string]int {
 // ------------------------------------------------------------------ serve mode
 
 type rtDrv struct {
-	tw     *trace.Writer
-	rng    *rand.Rand
-	cs     *ckServer
-	conn   *goredis.PoolConn
-	P      int
-	hosted []int
-	keys   []rtKey  // key id k (1-based) = keys[k-1]
-	knss   []string // namespace of key id k
-	part   []int    // SDK partition per key id
-	cnt    map[string]int
-	cross  bool // let MGET span partitions (trigger of known finding route-mget-first-key)
+	tw        *trace.Writer
+	rng       *rand.Rand
+	cs        *ckServer
+	conn      *goredis.PoolConn
+	P         int
+	hosted    []int
+	keys      []rtKey  // key id k (1-based) = keys[k-1]
+	knss      []string // namespace of key id k
+	part      []int    // SDK partition per key id
+	cnt       map[string]int
+	cross     bool // let MGET span partitions (trigger of known finding route-mget-first-key)
+	poison    int  // key id whose writes the owning partition refuses when it applies them (key longer than MaxKeySize); 0: none
+	redisPort int
 }
 
 func (d *rtDrv) rawOf(id int) string { return string(d.keys[id-1].rawNs(d.knss[id-1])) }
@@ -263,13 +268,57 @@ func (d *rtDrv) randIds(n int, onePart bool) []int { return d.randIdsNs(n, onePa
 
 // randIdsNs: sameNs forces keys of one namespace (MGET: the open finding route-mget-first-key is
 // defined by keys spanning partitions; its namespace variant has the same root and is kept out)
+// nkeys: key ids that ordinary commands draw from (the refused key is only named by PLSETs of
+// the partial-failure stage)
+func (d *rtDrv) nkeys() int {
+	if d.poison > 0 {
+		return d.poison - 1
+	}
+	return len(d.keys)
+}
+
+// plsetRaw sends a PLSET over a connection of its own and collects its replies: one status per
+// pair when the command was split and executed (also when a partition refused its share), or a
+// single error when it was rejected as a whole.
+func (d *rtDrv) plsetRaw(ids []int, vals []int) []string {
+	conn, err := net.DialTimeout("tcp", "127.0.0.1:"+strconv.Itoa(d.redisPort), 5*time.Second)
+	if err != nil {
+		return []string{"DIAL " + err.Error()}
+	}
+	defer conn.Close()
+	args := [][]byte{[]byte("plset")}
+	for i, id := range ids {
+		args = append(args, []byte(d.rawOf(id)), []byte("v"+strconv.Itoa(vals[i])))
+	}
+	conn.Write(common.BuildCommand(args).Raw)
+	rd := bufio.NewReader(conn)
+	out := []string{}
+	for len(out) < len(ids) {
+		wait := 150 * time.Millisecond
+		if len(out) == 0 {
+			wait = 10 * time.Second
+		}
+		conn.SetReadDeadline(time.Now().Add(wait))
+		line, err := rd.ReadString('\n')
+		if err != nil {
+			break
+		}
+		if strings.HasPrefix(line, "+OK") {
+			out = append(out, "OK")
+		} else {
+			out = append(out, "ERR")
+		}
+	}
+	return out
+}
+
 func (d *rtDrv) randIdsNs(n int, onePart bool, sameNs bool) []int {
 	ids := make([]int, 0, n)
-	first := 1 + d.rng.Intn(len(d.keys))
+	first := 1 + d.rng.Intn(d.nkeys())
 	// three multi-key commands in four name keys of one namespace only
 	oneNs := onePart || sameNs || d.rng.Intn(4) > 0
 	for len(ids) < n {
-		id := 1 + d.rng.Intn(len(d.keys))
+		id := 1 + d.rng.Intn(d.nkeys())
 		if len(ids) == 0 {
 			id = first
 		}
@@ -292,9 +341,9 @@ func (d *rtDrv) session(steps int) {
 		n := 1 + d.rng.Intn(5)
 		switch c := d.rng.Intn(100); {
 		case c < 22:
-			d.do("set", []int{1 + d.rng.Intn(len(d.keys))}, []int{d.rng.Intn(90)})
+			d.do("set", []int{1 + d.rng.Intn(d.nkeys())}, []int{d.rng.Intn(90)})
 		case c < 32:
-			d.do("get", []int{1 + d.rng.Intn(len(d.keys))}, nil)
+			d.do("get", []int{1 + d.rng.Intn(d.nkeys())}, nil)
 		case c < 50:
 			d.do("del", d.randIds(n, false), nil)
 		case c < 66:
@@ -302,17 +351,36 @@ func (d *rtDrv) session(steps int) {
 		case c < 82:
 			d.do("mget", d.randIdsNs(n, !d.cross, true), nil)
 		default:
-			ids := d.randIds(n, false)
+			ids := d.randIdsNs(n, false, d.poison > 0)
+			if d.poison > 0 && d.knss[ids[0]-1] == "default" && d.rng.Intn(2) == 0 {
+				// one pair that its partition will refuse, somewhere in the middle
+				k := d.rng.Intn(len(ids) + 1)
+				ids = append(ids[:k], append([]int{d.poison}, ids[k:]...)...)
+			}
 			vals := make([]int, len(ids))
 			for i := range vals {
 				vals[i] = d.rng.Intn(90)
 			}
-			d.do("plset", ids, vals)
+			if d.poison > 0 {
+				oks := d.plsetRaw(ids, vals)
+				whole := len(oks) == 1 && len(ids) > 1
+				d.tw.Emit(trace.M{"ev": "cmd", "name": "plset", "ks": ids, "vs": vals, "err": whole || (len(ids) == 1 && oks[0] != "OK"), "msg": "", "n": 0, "vals": []int{}, "oks": oks})
+				d.cnt["commands"]++
+				d.cnt["cmd_plset"]++
+				for _, id := range ids {
+					if id == d.poison {
+						d.cnt["plset_with_refusing_partition"]++
+					}
+				}
+				d.where(ids)
+			} else {
+				d.do("plset", ids, vals)
+			}
 		}
 	}
 }
 
-func rtServe(tw *trace.Writer, base string, seed int64, eng string, P int, drop int, steps int, cross bool, cnt map[string]int) error {
+func rtServe(tw *trace.Writer, base string, seed int64, eng string, P int, drop int, steps int, cross bool, plsetFail bool, cnt map[string]int) error {
 	rng := rand.New(rand.NewSource(seed))
 	hosted := []int{}
 	for p := 0; p < P; p++ {
@@ -396,7 +464,21 @@ func rtServe(tw *trace.Writer, base string, seed int64, eng string, P int, drop 
 			nsid[i] = 2
 		}
 	}
-	tw.Emit(trace.M{"ev": "reset", "P": P, "hosted": hosted, "part": d.part, "srv": srv, "ns": nsid, "cross": cross})
+	poisonList := []int{}
+	if plsetFail {
+		// a key the owning partition refuses when it applies the write (longer than MaxKeySize); last id
+		pk := rtKey{"t", []byte(strings.Repeat("z", common.MaxKeySize+100) + strconv.Itoa(rng.Intn(1000)))}
+		d.keys = append(d.keys, pk)
+		d.knss = append(d.knss, "default")
+		d.part = append(d.part, sdk.GetHashedPartitionID(sdk.NewPKey("default", pk.table, pk.pk).ShardingKey(), P))
+		sp, _, _ := serverPartition(pk.raw(), P)
+		srv = append(srv, sp)
+		nsid = append(nsid, 1)
+		d.poison = len(d.keys)
+		poisonList = []int{d.poison}
+	}
+	d.redisPort = cs.redis
+	tw.Emit(trace.M{"ev": "reset", "P": P, "hosted": hosted, "part": d.part, "srv": srv, "ns": nsid, "cross": cross, "poison": poisonList})
 	c := goredis.NewClient("127.0.0.1:"+strconv.Itoa(cs.redis), "")
 	defer c.Close()
 	for k := 0; k < 50; k++ {
@@ -425,6 +507,7 @@ func routesim(args []string) error {
 	et := fs.String("eng", "mem", "serve: engine")
 	plist := fs.String("p", "2,3,8", "serve: partition numbers")
 	steps := fs.Int("steps", 120, "serve: commands per server")
+	plsetFail := fs.Bool("plsetfail", false, "serve: PLSETs may contain a pair that its partition refuses when it applies it (partial failure; per-pair status order)")
 	cross := fs.Bool("crossmget", false, "serve: let MGET span partitions (trigger of known finding route-mget-first-key)")
 	fs.Parse(args)
 
@@ -497,7 +580,7 @@ func routesim(args []string) error {
 							cnt["panics"]++
 						}
 					}()
-					if err := rtServe(tw, base, *seed*100+int64(i)*3+int64(drop+2), *et, P, drop, *steps, *cross, cnt); err != nil {
+					if err := rtServe(tw, base, *seed*100+int64(i)*3+int64(drop+2), *et, P, drop, *steps, *cross, *plsetFail, cnt); err != nil {
 						tw.Emit(trace.M{"ev": "abort", "what": err.Error()})
 						cnt["aborted"]++
 					}
